@@ -503,7 +503,8 @@ func runC02(h *H) {
 			h.DoRisky("json.unmarshal", sub, set, strconv.Itoa(k+h.Intn(3)*4))
 		}
 	}
-	runC02Any(h) // c02any.go: whole documents into `var x any`
+	runC02Any(h)   // c02any.go: whole documents into `var x any`
+	runC02Typed(h) // c02typed.go: typed targets with prior content
 }
 
 // nullAt replaces the k-th (mod count) scalar or string VALUE of the document (not a key) by null.
